@@ -1030,7 +1030,7 @@ mzd_t *mzd_addmul_m4rm(mzd_t *C, mzd_t const *A, mzd_t const *B, int k) {
   rci_t a = A->nrows;
   rci_t c = B->ncols;
 
-  if (C->ncols == 0 || C->nrows == 0) return C;
+  if (C != NULL && (C->ncols == 0 || C->nrows == 0)) return C;
 
   if (A->ncols != B->nrows)
     m4ri_die("mzd_mul_m4rm A ncols (%d) need to match B nrows (%d) .\n", A->ncols, B->nrows);
